@@ -104,6 +104,8 @@ impl Flusher {
             .await?;
         }
 
+        #[cfg(sneldb_verif)]
+        crate::verif::point("flusher.zones_written");
         // Only append SegmentIndex entry if at least one event type had non-empty events
         let non_empty_event_types: Vec<&String> = by_event_type
             .iter()
